@@ -43,6 +43,21 @@ func Signature(report string) string {
 	return strings.Join(tops, " | ")
 }
 
+// InScope: the property is about the machine's API and about a network machine that receives
+// clock updates while being read. A report counts when the innermost asyncmachine frame of one of
+// the two accesses is code of pkg/machine, or a method of the network machine; races between the
+// rpc server's / client's own goroutines (eg inside the rpc2 transport at shutdown) do not.
+func InScope(sig string) bool {
+	for _, side := range strings.Split(sig, " | ") {
+		side = strings.TrimSpace(side)
+		if strings.HasPrefix(side, "machine.") || strings.HasPrefix(side, "rpc.(*NetworkMachine)") ||
+			strings.HasPrefix(side, "rpc.(*NetMachInternal)") {
+			return true
+		}
+	}
+	return false
+}
+
 type childOut struct {
 	programs int
 	last     string
@@ -116,6 +131,7 @@ func RunPipeline(bin string, seed int64, tier, outDir string, n int, search bool
 	var mu sync.Mutex
 	seen := map[string]bool{}
 	hangs := 0
+	outOfScope := map[string]int{}
 	for w := 0; w < workers; w++ {
 		wg.Add(1)
 		go func(w int) {
@@ -136,7 +152,9 @@ func RunPipeline(bin string, seed int64, tier, outDir string, n int, search bool
 						res.Note += "program did not finish (no race reported): " + h + "; "
 					}
 				}
-				if co.report != "" {
+				if co.report != "" && !InScope(Signature(co.report)) {
+					outOfScope[Signature(co.report)]++
+				} else if co.report != "" {
 					sig := Signature(co.report)
 					if !seen[sig] {
 						seen[sig] = true
@@ -164,7 +182,7 @@ func RunPipeline(bin string, seed int64, tier, outDir string, n int, search bool
 	wg.Wait()
 	res.Evaluations = res.Cases
 	res.DistinctNontrivial = res.Cases
-	res.Extra = map[string]any{"programs": res.Cases, "workers": workers, "programs_not_finished": hangs}
+	res.Extra = map[string]any{"programs": res.Cases, "workers": workers, "programs_not_finished": hangs, "race_reports_outside_the_property": outOfScope}
 	res.WallS = time.Since(t0).Seconds()
 	return res
 }
